@@ -20,6 +20,17 @@ impl fmt::Display for Frags<'_> {
     }
 }
 
+pub struct Chars<'a>(pub &'a str);
+impl fmt::Display for Chars<'_> {
+    fn fmt(&self, f: &mut fmt::Formatter<'_>) -> fmt::Result {
+        use fmt::Write;
+        for c in self.0.chars() {
+            f.write_char(c)?;
+        }
+        Ok(())
+    }
+}
+
 /// Wrapper so that `Val` (which derives Serialize for JSON replay files) can also be serialised
 /// *as the value it denotes*.
 pub struct AsData<'a>(pub &'a Val);
@@ -125,6 +136,7 @@ impl Serialize for AsData<'_> {
                 }
             },
             Val::Display(frags) => s.collect_str(&Frags(frags)),
+            Val::DisplayChars(t) => s.collect_str(&Chars(t)),
         }
     }
 }
